@@ -5,7 +5,7 @@ import vlib
 
 PID = "C20"
 THEOREMS = [
-    "c20_preproc_exact", "c20_undefined_named", "c20_text_without_tilde_untouched", "c20_define_precedence",
+    "c20_preproc_exact", "c20_preproc_single_pass_bounded", "c20_undefined_named", "c20_text_without_tilde_untouched", "c20_define_precedence",
     "c20_parameter_clause", "c20_title_attention_substituted", "c20_author_untouched",
     "c20_include_is_splice", "c20_stack_machine_is_recursive_inclusion", "c20_include_search_order",
     "c20_include_not_found", "c20_include_followed_below_ten", "c20_include_depth_refused",
